@@ -112,7 +112,7 @@ class CompositionMonitor(hist.Monitor):
     def totals(self, eng):
         tot = {}
         for n, lw in eng.world.lw.items():
-            v = lw._volumes
+            v = np.asarray(lw.volumes)
             for k, a in lw.composition.items():
                 if a.shape == v.shape:
                     tot[k] = tot.get(k, 0.0) + float(np.nansum(v * a))
@@ -290,6 +290,8 @@ def gen_case(rng, tier, index):
                            need_trough=rng.random() < 0.6, small=True)
     for d in wt:
         _rename(rng, d)
+    if rng.random() < 0.12:
+        wl["auto_split"] = False
     n_ops = rng.choice([5, 10, 20, 40, 80 if tier == "thorough" else 40])
     return {"worklist": wl, "worktable": wt, "n_ops": n_ops, "opseed": rng.getrandbits(48), "profile": "composition", "vclass": vclass}
 
